@@ -1125,4 +1125,151 @@ Proof.
   intros Hnd. apply G; [exact Hnd | constructor | intros c []].
 Qed.
 
+
+(* ---- CellInlining.inline_cells keeps every value --------------------------------------------- *)
+Definition set_cells (s : state) (cells : list (Z * cell)) : state :=
+  mkSt cells (s_surfs s) (s_nck s) (s_nsk s) (s_cache s) (s_rcache s).
+
+Notation inline_worker := (inline_worker T).
+Notation inline_loop := (inline_loop T).
+Notation inline_cells := (inline_cells T).
+
+(* what the worker does to one argument of a node *)
+Definition argfun (f : nat) (cells : list (Z * cell)) (ti : list Z) (a : tree) : res tree :=
+  match a with
+  | TRef c =>
+      if zmem c ti then
+        match dget c cells with
+        | None => Err EKey
+        | Some cl => inline_worker f cells ti (c_geom cl)
+        end
+      else Ok a
+  | TNode _ _ => inline_worker f cells ti a
+  | _ => Ok a
+  end.
+
+Lemma inline_worker_node : forall f cells ti op args,
+  inline_worker (S f) cells ti (TNode op args) =
+  match mapM_res (argfun f cells ti) args with
+  | Err x => Err x
+  | Ok args' => Ok (TNode op args')
+  end.
+Proof. reflexivity. Qed.
+
+Lemma inline_worker_leaf : forall f cells ti e e',
+  (forall op args, e <> TNode op args) -> inline_worker f cells ti e = Ok e' -> e' = e.
+Proof.
+  intros f cells ti e e' Hn H. destruct f as [|f]; [discriminate|].
+  destruct e; cbn in H; try (inversion H; reflexivity). exfalso. eapply Hn. reflexivity.
+Qed.
+
+(* one iteration of the in-place loop: the geometry of [k] is replaced by its inlined form *)
+Lemma inline_step_den : forall (s : state) ti k cl F g',
+  dget k (s_cells s) = Some cl ->
+  inline_worker F (s_cells s) ti (c_geom cl) = Ok g' ->
+  forall p,
+  (forall e b, Den s p e b ->
+     Den (set_cells s (dset k (with_geom cl g') (s_cells s))) p e b /\
+     (forall f e', inline_worker f (s_cells s) ti e = Ok e' ->
+        Den (set_cells s (dset k (with_geom cl g') (s_cells s))) p e' b) /\
+     (forall f e', argfun f (s_cells s) ti e = Ok e' ->
+        Den (set_cells s (dset k (with_geom cl g') (s_cells s))) p e' b)) /\
+  (forall es bs, DenL s p es bs ->
+     DenL (set_cells s (dset k (with_geom cl g') (s_cells s))) p es bs /\
+     (forall f es', mapM_res (argfun f (s_cells s) ti) es = Ok es' ->
+        DenL (set_cells s (dset k (with_geom cl g') (s_cells s))) p es' bs)).
+Proof.
+  intros s ti k cl F g' Hk Hg p.
+  set (s' := set_cells s (dset k (with_geom cl g') (s_cells s))).
+  apply (Den_DenL_ind T surf P sense s p
+    (fun e b _ => Den s' p e b /\
+       (forall f e', inline_worker f (s_cells s) ti e = Ok e' -> Den s' p e' b) /\
+       (forall f e', argfun f (s_cells s) ti e = Ok e' -> Den s' p e' b))
+    (fun es bs _ => DenL s' p es bs /\
+       (forall f es', mapM_res (argfun f (s_cells s) ti) es = Ok es' -> DenL s' p es' bs))).
+  - intros x o Ho.
+    assert (D : Den s' p (TSurf x) (lit x (sense o p))) by (apply DSurf; exact Ho).
+    split; [exact D|]. split.
+    + intros f e' H. rewrite (inline_worker_leaf f _ ti (TSurf x) e' ltac:(intros; discriminate) H). exact D.
+    + intros f e' H. cbn in H. inversion H; subst. exact D.
+  - intros c cl0 b Hc _ (IH1 & IH2 & IH3).
+    assert (D : Den s' p (TRef c) b).
+    { destruct (Z.eq_dec c k) as [->|Hne].
+      - rewrite Hk in Hc. inversion Hc; subst cl0.
+        eapply DRef; [unfold s'; cbn [set_cells s_cells]; apply dget_dset_same|].
+        cbn [with_geom c_geom]. exact (IH2 F g' Hg).
+      - eapply DRef; [unfold s'; cbn [set_cells s_cells]; rewrite dget_dset_other by exact Hne; exact Hc|].
+        exact IH1. }
+    split; [exact D|]. split.
+    + intros f e' H. rewrite (inline_worker_leaf f _ ti (TRef c) e' ltac:(intros; discriminate) H). exact D.
+    + intros f e' H. cbn [argfun] in H. destruct (zmem c ti).
+      * rewrite Hc in H. exact (IH2 f e' H).
+      * inversion H; subst. exact D.
+  - intros op args bs _ (IH1 & IH2).
+    assert (W : forall f e', inline_worker f (s_cells s) ti (TNode op args) = Ok e' ->
+                Den s' p e' (combine_op op bs)).
+    { intros f e' H. destruct f as [|f]; [discriminate|]. rewrite inline_worker_node in H.
+      destruct (mapM_res (argfun f (s_cells s) ti) args) as [args'|] eqn:E; [|discriminate].
+      inversion H; subst. apply DNode. exact (IH2 f args' E). }
+    split; [apply DNode; exact IH1|]. split; [exact W|].
+    intros f e' H. cbn [argfun] in H. exact (W f e' H).
+  - split; [apply DNil|]. intros f es' H. cbn in H. inversion H. apply DNil.
+  - intros e b es bs _ (IHe1 & IHe2 & IHe3) _ (IHs1 & IHs2).
+    split; [apply DCons; assumption|].
+    intros f es' H. cbn [mapM_res] in H.
+    destruct (argfun f (s_cells s) ti e) as [e'|] eqn:E1; [|discriminate].
+    destruct (mapM_res (argfun f (s_cells s) ti) es) as [es1|] eqn:E2; [|discriminate].
+    inversion H; subst. apply DCons; [exact (IHe3 f e' E1) | exact (IHs2 f es1 E2)].
+Qed.
+
+Lemma Den_same_tables : forall (s1 s2 : state) p e b,
+  s_cells s1 = s_cells s2 -> s_surfs s1 = s_surfs s2 -> Den s1 p e b -> Den s2 p e b.
+Proof.
+  intros s1 s2 p e b Hc Hs. apply (proj1 (Den_mono s1 s2 p ltac:(split; [rewrite Hc | rewrite Hs]; auto))).
+Qed.
+
+Lemma inline_loop_den : forall fuel ti keys (s : state) cells',
+  inline_loop fuel keys ti (s_cells s) = Ok cells' ->
+  forall p e b, Den s p e b -> Den (set_cells s cells') p e b.
+Proof.
+  intros fuel ti keys. induction keys as [|k r IH]; intros s cells' H p e b HD; cbn in H.
+  - inversion H; subst. eapply Den_same_tables; [| |exact HD]; reflexivity.
+  - destruct (dget k (s_cells s)) as [cl|] eqn:Ek; [|discriminate].
+    destruct (inline_worker fuel (s_cells s) ti (c_geom cl)) as [g'|] eqn:Eg; [|discriminate].
+    pose proof (proj1 (proj1 (inline_step_den s ti k cl fuel g' Ek Eg p) e b HD)) as HD1.
+    exact (IH (set_cells s (dset k (with_geom cl g') (s_cells s))) cells' H p e b HD1).
+Qed.
+
+(* inline_cells never changes the value of anything: every tree that had a value at a point
+   has the same value there once the references have been replaced *)
+Theorem inline_cells_den : forall fuel num den (s : state) cells',
+  inline_cells fuel num den (s_cells s) = Ok cells' ->
+  forall p e b, Den s p e b -> Den (set_cells s cells') p e b.
+Proof.
+  intros fuel num den s cells' H p e b HD. unfold Model.inline_cells in H.
+  assert (Same : Ok (s_cells s) = Ok cells' -> Den (set_cells s cells') p e b).
+  { intros E. inversion E; subst. eapply Den_same_tables; [| |exact HD]; reflexivity. }
+  destruct (find_occurrences T (s_cells s)) as [occ|]; [|discriminate].
+  destruct occ as [|o occ']; [exact (Same H)|].
+  destruct (to_inline_set T (s_cells s) num den (o :: occ')) as [ti|]; [|discriminate].
+  destruct ti as [|t0 ti']; [exact (Same H)|].
+  exact (inline_loop_den fuel (t0 :: ti') _ s cells' H p e b HD).
+Qed.
+
+(* ... and only geometries change *)
+Lemma inline_loop_fields : forall fuel ti keys (cells cells' : list (Z * cell)),
+  inline_loop fuel keys ti cells = Ok cells' ->
+  forall k cl, dget k cells = Some cl -> exists g, dget k cells' = Some (with_geom cl g).
+Proof.
+  intros fuel ti keys. induction keys as [|k0 r IH]; intros cells cells' H k cl Hk; cbn in H.
+  - inversion H; subst. exists (c_geom cl). destruct cl; exact Hk.
+  - destruct (dget k0 cells) as [cl0|] eqn:Ek; [|discriminate].
+    destruct (inline_worker fuel cells ti (c_geom cl0)) as [g'|] eqn:Eg; [|discriminate].
+    destruct (Z.eq_dec k k0) as [->|Hne].
+    + rewrite Ek in Hk. inversion Hk; subst cl0.
+      destruct (IH _ _ H k0 (with_geom cl g') (dget_dset_same _ _ _)) as (g & Hg).
+      exists g. exact Hg.
+    + apply (IH _ _ H k cl). rewrite dget_dset_other by exact Hne. exact Hk.
+Qed.
+
 End Proofs.
